@@ -553,7 +553,7 @@ Definition parse_downgrade_target (M:rmap) (cur:list str) (s:str) (arl:bool) : r
                               | [] => allc <- get_all_current M cur ;; filter_for_lineage M allc b
                               | _ => Ok sl
                               end) ;;
-                      match sl' with [x] => Ok (x, bl) | _ => Err EAssertion end    (* assert len(symbol_list) == 1 *)
+                      match sl' with [x] => Ok (x, bl) | _ => Err ERevision end     (* if len(symbol_list) != 1: raise RevisionError("Relative revision ... didn't produce N migrations") *)
                   | None =>
                       match cur with
                       | [] => Err ERevision
